@@ -9,9 +9,10 @@ use std::hash::{Hash, Hasher};
 pub fn hash_source_ip(packet: &[u8]) -> usize {
     // Skip Ethernet header (14 bytes) if present
     // Both IPv4 (0x0800) and IPv6 (0x86DD) use same offset
-    let ip_start: usize = if packet.len() > 14
-        && ((packet[12] == 0x08 && packet[13] == 0x00)
-            || (packet[12] == 0x86 && packet[13] == 0xDD))
+    // Only when the frame can hold the IP header its EtherType announces (20 bytes for
+    // IPv4, 40 for IPv6), as the packet parser requires; anything else is read as raw IP
+    let ip_start: usize = if (packet.len() >= 34 && packet[12] == 0x08 && packet[13] == 0x00)
+        || (packet.len() >= 54 && packet[12] == 0x86 && packet[13] == 0xDD)
     {
         14
     } else {
